@@ -14,6 +14,12 @@ import (
 const convBound = 10 * tElection
 
 func withQuiet(base string, perm []int) func() *Scenario {
+	return withQuietOpt(base, perm, true)
+}
+
+// restart=false leaves servers crashed by the script down (the scenario keeps a majority of voters running);
+// servers crashed by a deviation are restarted in any case.
+func withQuietOpt(base string, perm []int, restart bool) func() *Scenario {
 	return func() *Scenario {
 		sc := scenarioByName(base)
 		sc.Goal = func(w *World) bool {
@@ -26,7 +32,7 @@ func withQuiet(base string, perm []int) func() *Scenario {
 					delete(w.blocked, k)
 				}
 				for _, n := range w.nodes {
-					if !n.up && n.everUp {
+					if (restart || n.crashedByDev) && !n.up && n.everUp {
 						w.start(n)
 					}
 				}
@@ -55,6 +61,31 @@ func init() {
 		regScenario("conv-"+b, withQuiet(b, []int{0, 2, 1, 3}))
 		regScenario("conv2-"+b, withQuiet(b, []int{2, 0, 1, 3}))
 	}
+	// A non-voter is promoted while cut off from the leader, so it never learns of its own vote; the leader then
+	// crashes for good. The remaining three of four voters can communicate and must elect (the promoted server's
+	// vote is needed although its own configuration says it has none).
+	regScenario("promote-cut", func() *Scenario {
+		ns := append(voters(3), NodeSpec{Suffrage: raft.Nonvoter, InBootstrap: true, StartUp: true})
+		return &Scenario{Nodes: ns, Devs: DevAll, Horizon: 400, Goal: func(w *World) bool { return w.vals["crashed"] == 1 && w.converged() },
+			Steps: []Step{
+				stepApplyLeader("apply1"),
+				stepDo("cut+promote", whenSettled, func(w *World) {
+					l := w.leader()
+					w.vals["old"] = l.id
+					w.cut(l.id, 3, true)
+					w.vals["promo"] = w.addVoter(l, 3, 0).ID
+				}),
+				stepDo("crash-leader", func(w *World) bool {
+					c := w.calls[w.vals["promo"]]
+					return c.Done && c.Err == nil && w.nodes[w.vals["old"]].up
+				}, func(w *World) {
+					w.crash(w.nodes[w.vals["old"]])
+					w.vals["crashed"] = 1
+				}),
+			}}
+	})
+	regScenario("conv-promote-cut", withQuietOpt("promote-cut", []int{0, 2, 1, 3}, false))
+	regScenario("conv2-promote-cut", withQuietOpt("promote-cut", []int{3, 1, 0, 2}, false))
 }
 
 type isRec struct {
